@@ -56,6 +56,8 @@ class World:
         self.level = {}         # id(grouping tuple) -> tower level
         self.groupings = []
         self.uses_log = []      # (frame, reference, target) of every uses written so far
+        self.hooks = []         # directory nodes generated without children
+        self.family = "tower"
 
     def stable(self):
         """every reference written so far still denotes the grouping it was written for"""
@@ -137,13 +139,38 @@ def leaflist(w):
             r.choice([None, 0, 1, 2]), r.choice([None, 5, 10, MAXU64]))
 
 
+def empty_dir(w, act=True, kind=None):
+    """a directory node with NO children: its child map exists and is empty"""
+    r = w.rnd
+    kinds = ["container", "container", "list", "choice", "choicecase"] + (["actin", "actout"] if act else [])
+    k = kind or r.choice(kinds)
+    if k == "container":
+        n = ("container", w.name("hk"), tri(r), [])
+    elif k == "list":
+        n = ("list", w.name("hl"), None, tri(r), r.choice([None, 1]), r.choice([None, 6]), [])
+    elif k == "choice":
+        n = ("choice", w.name("hch"), None, None, None, [])
+    elif k == "choicecase":
+        n = ("choice", w.name("hch"), None, None, None, [("case", w.name("hcs"), [])])
+    elif k == "actin":
+        n = ("rpc", True, w.name("hact"), [], None)
+    elif k == "actout":
+        n = ("rpc", True, w.name("hact"), None, [])
+    else:
+        raise ValueError(k)
+    w.hooks.append(n)
+    return n
+
+
 def plain_nodes(w, depth, n=None, act=True):
     """data nodes without uses: lists with min/max-elements, actions with input/output, choices (with shorthand cases)"""
     r = w.rnd
     out = []
     for _ in range(n if n is not None else r.randint(1, 3)):
         x = r.random()
-        if depth <= 0 or x < 0.3:
+        if depth > 0 and r.random() < 0.12:
+            out.append(empty_dir(w, act))        # a directory node without children (an augmentation hook)
+        elif depth <= 0 or x < 0.3:
             out.append(leaf(w))
         elif x < 0.42:
             out.append(leaflist(w))
@@ -384,6 +411,61 @@ def gen_world(rnd, depth=None):
     return w
 
 
+def gen_hook_world(rnd):
+    """family "empty hooks": groupings holding directory nodes of every kind WITHOUT children at depth 1..3, two or three
+    uses of each (same module, submodule, other module); the independence experiments then augment one instance, or two
+    instances with equally named children"""
+    w = World(rnd)
+    w.family = "hooks"
+    r = rnd
+    m0 = w.add_module("m0", "p0")
+    m1 = w.add_module("m1", "p1")
+    m1["imports"].append((r.choice(["x0", "p0"]), "m0"))
+    mods = [m0, m1]
+    if r.random() < 0.5:
+        s1 = w.add_module("m0s1", "p0", "m0")
+        m0["includes"].append("m0s1")
+        mods.append(s1)
+    top0 = w.topframe["m0"]
+    for _ in range(r.randint(1, 2)):
+        body = []
+        kinds = ["container", "list", "choice", "choicecase", "actin", "actout"]
+        r.shuffle(kinds)
+        for k in kinds[:r.randint(2, 6)]:
+            h = empty_dir(w, True, k)
+            for _d in range(r.randint(0, 2)):          # depth 1..3
+                h = r.choice([("container", w.name("c"), tri(r), [h] + ([leaf(w)] if r.random() < 0.5 else [])),
+                              ("list", w.name("li"), None, None, None, None, [h])])
+            body.append(h)
+        if r.random() < 0.5:
+            body.append(leaf(w))
+        w.gid += 1
+        g = ("grouping", w.gid, w.name("g"), body)
+        if w.groupings and r.random() < 0.5:
+            # a grouping that passes the hooks of an earlier one on
+            t = r.choice(w.groupings)
+            ref = r.choice(w.refs_to(top0.child(body, "grouping"), t))
+            body.append(("container", w.name("u"), None, [uses(ref, t)]))
+        top0.body.append(g)
+        top0.groupings[g[2]] = g
+        w.home[id(g)] = top0
+        w.level[id(g)] = len(w.groupings)
+        w.groupings.append(g)
+    for g in w.groupings:
+        places = [w.topframe[m["name"]] for m in mods]
+        r.shuffle(places)
+        n_use = 0
+        for f in (places + places)[:r.randint(2, 3) + 1]:
+            n = wrap_use(w, f, g, ["container", "container", "list"])
+            if n is not None:
+                f.body.append(n)
+                n_use += 1
+    for m in mods:
+        if not m["body"]:
+            m["body"].append(leaf(w))
+    return w
+
+
 # ------------------------------------------------------------------ the generator's own inlining
 def inline_body(body, drop_groupings=False):
     out = []
@@ -503,7 +585,7 @@ def pick_later_use(w):
     return w.rnd.choice(c) if c else None
 
 
-def mutation_for(w, inst, tag):
+def mutation_for(w, inst, tag, same_name=False):
     """(augments, deviations, mode) aimed at one instance; mode says how the target position is projected away"""
     r = w.rnd
     owner, steps, kind, origin, node = inst
@@ -524,6 +606,11 @@ def mutation_for(w, inst, tag):
     if not opts:
         return None
     o = r.choice(opts)
+    if same_name or (id(node) in {id(h) for h in w.hooks} and r.random() < 0.8):
+        # an empty hook is there to be augmented
+        o = "augmentcase" if kind == "choice" else ("augment" if "augment" in opts else o)
+    if same_name:
+        tag = ""
     if o == "augment":
         return ([(path, [("leaf", "zaug" + tag, "string", None, None, None, None)])], [], ("added", steps, "zaug" + tag))
     if o == "augmentcase":
@@ -740,7 +827,10 @@ def run(res, tier, seed, proof):
     for i in range(n_worlds):
         w = gen_world(random.Random(rnd.getrandbits(64)), depth=(6 if i % 9 == 0 else None))
         worlds.append(w)
-    stats = dict(worlds=n_worlds, ok=0, err=0, depth_hist={}, groupings=0, uses=0, max_nodes=0, shadowed_names=0,
+    n_hooks = 60 if tier == "quick" else 700
+    for i in range(n_hooks):
+        worlds.append(gen_hook_world(random.Random(rnd.getrandbits(64))))
+    stats = dict(worlds=n_worlds, hook_worlds=n_hooks, ok=0, err=0, depth_hist={}, groupings=0, uses=0, max_nodes=0, shadowed_names=0,
                  faithful_pairs=0, independence_single=0, independence_double=0, later_use=0, negative=0, positive_fixed=0,
                  mutation_kinds={})
     viol = [0]
@@ -808,18 +898,35 @@ def run(res, tier, seed, proof):
         for x in insts:
             groups.setdefault(id(x[4]), []).append(x)
         multi = [v for v in groups.values() if len(v) >= 2]
-        for rep in range(2 if tier == "quick" else 4):
-            if multi and w.rnd.random() < 0.8:
+        hook_ids = {id(h) for h in w.hooks}
+        hook_multi = [v for v in multi if id(v[0][4]) in hook_ids or
+                      (v[0][2] in ("input", "output", "case") and not (v[0][4][3] if v[0][2] == "input" else
+                                                                        v[0][4][4] if v[0][2] == "output" else v[0][4][2]))]
+        for rep in range((2 if tier == "quick" else 4) + (2 if w.family == "hooks" else 0)):
+            same = False
+            if hook_multi and (w.family == "hooks" or w.rnd.random() < 0.3):
+                grp = w.rnd.choice(hook_multi)
+                a, b = w.rnd.sample(grp, 2)
+                same = w.rnd.random() < 0.5
+                if w.rnd.random() < 0.25:
+                    b = None
+            elif multi and w.rnd.random() < 0.8:
                 grp = w.rnd.choice(multi)
                 a, b = w.rnd.sample(grp, 2)
             else:
                 a, b = w.rnd.choice(insts), None
-            ma = mutation_for(w, a, "a")
+            ma = mutation_for(w, a, "a", same_name=same)
             if ma is None:
                 continue
-            mb = mutation_for(w, b, "b") if b is not None else None
+            mb = mutation_for(w, b, "b", same_name=same) if b is not None else None
+            if same and mb is not None and (ma[2][0] != "added" or mb[2][0] != "added"):
+                mb = None
             if mb is not None and (a[1][:len(b[1])] == b[1] or b[1][:len(a[1])] == a[1]) and a[0] == b[0]:
                 mb = None        # one position above the other: not independent positions
+            if same and mb is not None:
+                stats["hook_same_name_pairs"] = stats.get("hook_same_name_pairs", 0) + 1
+            if id(a[4]) in hook_ids or a in [x for v in hook_multi for x in v]:
+                stats["hook_mutations"] = stats.get("hook_mutations", 0) + 1
             base = plain(w.mods) + [mz_module(w, later, [], [])]
             sa = plain(w.mods) + [mz_module(w, later, ma[0], ma[1])]
             cases = [base, sa]
@@ -944,7 +1051,10 @@ def run(res, tier, seed, proof):
     cov = dict(
         evaluations=evaluations,
         distinct_nontrivial=stats["ok"] + stats["independence_single"] + stats["independence_double"],
-        rule="grouping towers (depth 1..6, every 9th world depth 6) over m0 [+ imported m1 [+ submodule m1s1]] [+ submodules "
+        rule="family `empty hooks`: groupings holding directory nodes WITHOUT children (container, list, choice, case, action "
+             "input/output) at depth 1..3, 2..3 uses in the same module, a submodule and an importing module, augmented in one "
+             "instance or in two instances with equally named children; such empty nodes also occur (12%) in every body of "
+             "the tower family.  Family `towers`: grouping towers (depth 1..6, every 9th world depth 6) over m0 [+ imported m1 [+ submodule m1s1]] [+ submodules "
              "m0s1, m0s2 (nested or sibling include)], definitions at module, submodule, imported-module and up to three nested "
              "container/list/case scopes, names drawn from {g,h,k} so that one name is defined at several levels and in several "
              "modules, groupings nested in groupings, each grouping used >= 2 times from container/list/case/rpc input/"
